@@ -12,7 +12,7 @@ import numpy as np
 
 from ..simkit import gen, refmodel
 from ..simkit.backends import BackendFault, classes
-from ..simkit.core import call, judge
+from ..simkit.core import call, judge, clear_library_caches
 from ..simkit.simrng import POLICIES, SimRNG
 
 PID = "C04"
@@ -46,7 +46,7 @@ class World:
     ]
     PROBES_EXPECTED = ["regime-few", "regime-many", "regime-boundary", "asymmetric-state", "basis-state", "adversarial-single-outcome",
                        "cross-regime-same-outcome", "exact-expectation", "measured-expectation", "cache-cleared", "user-seeded-runner",
-                       "peer-fault", "sampled-distribution", "exact-distribution"]
+                       "peer-fault", "sampled-distribution", "exact-distribution", "operator-object-reused", "register-wider-than-8"]
 
     def gen_plan(self, seed, tier):
         r = random.Random(seed)
@@ -59,10 +59,21 @@ class World:
         cfg = {"n": n, "sims": sims, "rng_mode": r.choice(["real", "adversarial", "adversarial"]), "rng_policy": r.choice(POLICIES),
                "cache_clear": r.choice([0.0, 0.3, 1.0]), "faults": r.choice(["none", "none", "low"]), "clients": r.randint(1, 2)}
         steps = []
-        for _ in range(r.randint(3, 14)):
-            if r.random() < 0.4:
+        n_run = n
+        wmin = max(1, n_run - 1)
+        # operator OBJECTS that live as long as the run and are evaluated against circuits of different widths
+        cfg["ops_pool"] = [gen.rand_pauli(r, wmin, r.randint(1, 3), ops="Z", constant=0.15, dup=0.1) for _ in range(2)]
+        wide_at = r.randrange(3, 14) if r.random() < 0.08 else None
+        for k_step in range(r.randint(3, 14)):
+            n = r.choice([n_run, n_run, n_run, wmin])
+            wide = k_step == wide_at
+            if wide:
+                n = r.choice([9, 9, 10])   # registers wider than one byte of outcome bits
+            if wide or r.random() < 0.4:
                 while True:
                     bits = [r.randint(0, 1) for _ in range(n)]
+                    if wide:
+                        bits = [1 if r.random() < 0.25 else 0 for _ in range(n)]
                     if n == 1 or bits != bits[::-1] or r.random() < 0.1:
                         break
                 c = gen.basis_circuit(bits)
@@ -73,15 +84,17 @@ class World:
                 c["n"] = n
                 kind = "rand"
             N = 2 ** n
-            small = r.choice([1, 2, max(1, N - 1), N])
-            big = r.choice([N + 1, 3 * N, N + 7])
+            small = r.choice([1, 2, max(1, N - 1), N]) if not wide else r.choice([1, 3])
+            big = r.choice([N + 1, 3 * N, N + 7]) if not wide else N + r.choice([1, 40])
             op = gen.rand_pauli(r, n, r.randint(1, 4), ops="Z", constant=0.15, dup=0.1)
-            s = {"op": "views", "args": {"sim": r.randrange(4), "c": c, "kind": kind, "small": small, "big": big, "operator": op,
+            s = {"op": "views", "args": {"sim": r.randrange(4) if not wide else 0, "c": c, "kind": kind, "small": small, "big": big, "operator": op,
+                                         "op_ref": r.randrange(2) if r.random() < 0.4 else None,
                                          "bessel": r.random() < 0.3},
                  "client": r.randrange(cfg["clients"]), "rs": r.getrandbits(32)}
             if cfg["faults"] != "none" and r.random() < 0.15:
                 s["fault"] = {"kind": "peer", "at": r.randrange(0, 3)}
             steps.append(s)
+        cfg["n"] = n_run
         return {"format": 1, "property": PID, "world": "runners", "seed": seed, "config": cfg, "steps": steps}
 
     def sample(self, plan):
@@ -95,9 +108,8 @@ class World:
 
         _, SplitSim, _ = classes()
         cfg = plan["config"]
-        wfmod._get_ordering.cache_clear()
-        umod.bitstring_to_tuple.cache_clear()
-        umod.tuple_to_bitstring.cache_clear()
+        clear_library_caches()
+        clear_library_caches()
         sims = []
         for s in cfg["sims"]:
             if s["kind"] == "symbolic":
@@ -105,7 +117,8 @@ class World:
             else:
                 sims.append(SplitSim(s["family"], s["arg"], s["real_apply"], seed=s["seed"]))
         rng = SimRNG(cfg["rng_mode"], cfg["rng_policy"], ctx.probes).install()
-        return {"sims": sims, "rng": rng, "umod": umod, "both_regimes_asym": False}
+        ops = [gen.build_pauli(o) for o in cfg.get("ops_pool", [])]
+        return {"sims": sims, "rng": rng, "umod": umod, "both_regimes_asym": False, "ops": ops}
 
     def cleanup(self, st):
         st["rng"].restore()
@@ -120,9 +133,15 @@ class World:
         circ = gen.build_circuit(a["c"])
         n = circ.n_qubits
         N = 2 ** n
+        op_spec, op_obj = a["operator"], None
+        if a.get("op_ref") is not None and st["ops"]:
+            k_op = a["op_ref"] % len(st["ops"])
+            op_spec, op_obj = cfg["ops_pool"][k_op], st["ops"][k_op]   # the same object as in earlier steps
+            ctx.probe("operator-object-reused")
+        if n > 8:
+            ctx.probe("register-wider-than-8")
         if ctx.rng(step).random() < cfg.get("cache_clear", 0):
-            st["umod"].bitstring_to_tuple.cache_clear()
-            st["umod"].tuple_to_bitstring.cache_clear()
+            clear_library_caches()
             ctx.probe("cache-cleared")
         st["rng"].begin_step(step["rs"])
         # model
@@ -196,11 +215,11 @@ class World:
                 ctx.check(counts == dict(want), "refine", "count-strings", f"{what}: get_counts() {counts} != tuples rendered position by position {dict(want)}")
                 outcomes[label] = [tuple(int(b) for b in t) for t in bs]
                 # measurement-based expectation: same numbering between tuple positions and operator indices
-                op = gen.build_pauli(a["operator"])
+                op = op_obj if op_obj is not None else gen.build_pauli(op_spec)
                 okx, ev = call(meas.get_expectation_values, op, a["bessel"] and ns > 1)
                 ctx.called("Measurements.get_expectation_values")
                 ctx.check(okx, "unexpected-reject", "measured-expectation", lambda: f"{type(ev).__name__}: {ev}")
-                terms = gen.pauli_terms_of(a["operator"])
+                terms = gen.pauli_terms_of(op_spec)
                 vals = np.asarray(ev.values).reshape(-1)
                 ctx.check(len(vals) == len(terms), "refine", "measured-expectation-length", f"{len(vals)} values for {len(terms)} terms")
                 for j, (coef, ops) in enumerate(terms):
@@ -227,13 +246,13 @@ class World:
                     ctx.check(pc[refmodel.index_of(k)] > 0.0, "refine", "zero-probability-outcome", f"{what}: sampled distribution has {k}: {v} with exact probability 0")
         ctx.probe("sampled-distribution")
         # 5. exact expectation of a Z-type operator
-        op = gen.build_pauli(a["operator"])
+        op = op_obj if op_obj is not None else gen.build_pauli(op_spec)
         ok, ex = call(sim.get_exact_expectation_values, circ, op)
         ctx.called("get_exact_expectation_values")
         ctx.check(ok, "unexpected-reject", "exact-expectation", lambda: f"{what}: {type(ex).__name__}: {ex}")
         with judge(ctx):
             want = sum(coef.real * sum(p[i] * refmodel.z_eigenvalue(refmodel.bits_of(i, n), list(ops)) for i in range(N))
-                       for coef, ops in gen.pauli_terms_of(a["operator"]))
+                       for coef, ops in gen.pauli_terms_of(op_spec))
             ctx.check(abs(float(ex) - want) <= 1e-9, "refine", "exact-expectation",
                       f"{what}: exact <{op}> = {ex!r}, eigenvalue average under the exact distribution = {want!r}")
         ctx.probe("exact-expectation")
